@@ -161,7 +161,13 @@ func (p *project) addDecoys(r *rand.Rand) {
 		"../sibling/regex-assembly/932100.ra":                       "   outside\n",
 		"../sibling/tests/regression/tests/X/932100.yaml":           "  - test_id: 9\n\n\n",
 		"../outside.conf":                                           "# OWASP CRS ver.1.0.0\n",
-		"../outside.ra":                                             "   outside\n",
+		// the directory above the root looks like a root itself
+		"../regex-assembly/932100.ra":             "   above\n",
+		"../regex-assembly/include/inc1.ra":       "   above\n",
+		"../rules/REQUEST-932-ABOVE.conf":         "# OWASP CRS ver.1.0.0\nSecRule ARGS \"@rx above\" \\\n    \"id:932100,\\\n    ver:'OWASP_CRS/1.0.0'\"\n",
+		"../tests/regression/tests/X/932100.yaml": "  - test_id: 9\n\n\n",
+		"../crs-setup.conf.example":               "# OWASP CRS ver.1.0.0\n",
+		"../outside.ra":                           "   outside\n",
 	}
 	for k, v := range d {
 		p.Extra[k] = v
